@@ -115,6 +115,11 @@ class PersistentRemoteWorker(PersistentWorker, RemoteWorker):
                 assert len(result) == 2
                 logger.info(f'Final result received')
                 self._result = result
+                if not last_partial_result_signalled:
+                    # the child was ended before it could announce the end of its results (killed: the final pair comes
+                    # from the server) - a consumer which is waiting for the next result must still be told
+                    self._results_pipe.child_end.put((counter, False, None, self.id))
+                    last_partial_result_signalled = True
                 try:
                     self._final_user_state = (recv_msg(self._socket, comment='data: user state'), )
                     logger.debug('User state received')
